@@ -32,10 +32,16 @@ theorem Mono.trans {old nb : Nat} (hnb : nb ≠ old) {a b c : Array Var}
   · exact absurd (e1'.symm.trans e2) hnb
 
 /-- a variable that has left block `old` (or never was in it) stays out of it -/
-theorem Mono.stay {old nb : Nat} (hnb : nb ≠ old) {a b : Array Var} (h : Mono old nb a b) {y : Nat}
+theorem Mono.stay {old nb : Nat} (_hnb : nb ≠ old) {a b : Array Var} (h : Mono old nb a b) {y : Nat}
     (hy : blk a y ≠ old) : blk b y ≠ old := by
   rcases h.blkc y with e | ⟨e, _⟩
   · rw [e]; exact hy
+  · exact absurd e hy
+
+theorem Mono.stay_eq {old nb : Nat} {a b : Array Var} (h : Mono old nb a b) {y : Nat}
+    (hy : blk a y ≠ old) : blk b y = blk a y := by
+  rcases h.blkc y with e | ⟨e, _⟩
+  · exact e
   · exact absurd e hy
 
 theorem Mono.stay_nb {old nb : Nat} (hnb : nb ≠ old) {a b : Array Var} (h : Mono old nb a b) {y : Nat}
@@ -297,5 +303,339 @@ theorem populateSplit_spec (cons : Array Con) (old nb : Nat) (hnb : nb ≠ old) 
           rw [hr] at hmem
           exact qOut y ⟨j, hmem, ha, by rw [hl]; exact huy, hl.symm⟩
     · exact Or.inr (gOut.clos i hi h0 h1 j y hjy)
+
+/-! ### the core of split -/
+
+theorem split_core (vars : Array Var) (cons : Array Con) (n : Nat) (ia : Array Nat)
+    (h : InvC vars cons n ia) (ci : Nat) (hci : ci < cons.size) (hact : (cons[ci]!).active = true)
+    (fuel : Nat) (m1 m2 : Array Nat)
+    (hok1 : (populateSplit (cons.set! ci { cons[ci]! with active := false })
+      (blk vars (cons[ci]!).l) n fuel vars m1 (cons[ci]!).l (some (cons[ci]!).r)).2.2 = true)
+    (hok2 : (populateSplit (cons.set! ci { cons[ci]! with active := false })
+      (blk vars (cons[ci]!).l) (n + 1) fuel
+      (populateSplit (cons.set! ci { cons[ci]! with active := false })
+        (blk vars (cons[ci]!).l) n fuel vars m1 (cons[ci]!).l (some (cons[ci]!).r)).1
+      m2 (cons[ci]!).r (some (cons[ci]!).l)).2.2 = true) :
+    InvC
+      (populateSplit (cons.set! ci { cons[ci]! with active := false })
+        (blk vars (cons[ci]!).l) (n + 1) fuel
+        (populateSplit (cons.set! ci { cons[ci]! with active := false })
+          (blk vars (cons[ci]!).l) n fuel vars m1 (cons[ci]!).l (some (cons[ci]!).r)).1
+        m2 (cons[ci]!).r (some (cons[ci]!).l)).1
+      (cons.set! ci { cons[ci]! with active := false }) (n + 2) (ia.push ci) := by
+  -- names
+  generalize hcons1 : cons.set! ci { cons[ci]! with active := false } = cons1 at *
+  generalize hold : blk vars (cons[ci]!).l = old at *
+  generalize hl0 : (cons[ci]!).l = l at *
+  generalize hr0 : (cons[ci]!).r = r at *
+  generalize hv1 : (populateSplit cons1 old n fuel vars m1 l (some r)).1 = vars1 at *
+  generalize hv2 : (populateSplit cons1 old (n + 1) fuel vars1 m2 r (some l)).1 = vars2 at *
+  have hl : l < vars.size := hl0 ▸ h.l_lt ci hci
+  have hr : r < vars.size := hr0 ▸ h.r_lt ci hci
+  have hbr : blk vars r = old := by
+    have := (h.tight ci hci hact).1
+    rw [hl0, hr0, hold] at this
+    exact this.symm
+  have hbridge : ¬ ReachAvoid cons ci l r := by
+    have := h.bridge ci hci hact
+    rwa [hl0, hr0] at this
+  have holdlt : old < n := hold ▸ h.fresh l hl
+  have hn1 : n ≠ old := by omega
+  have hn2 : n + 1 ≠ old := by omega
+  -- the constraint array after deactivating `ci`
+  have hsz : cons1.size = cons.size := by rw [← hcons1]; exact set!_size _ _ _
+  have hget : ∀ j : Nat, j ≠ ci → cons1[j]! = cons[j]! := by
+    intro j hj
+    rw [← hcons1, cons_set_get]
+    split
+    · rename_i hh; exact absurd hh.1.symm hj
+    · rfl
+  have hgetci : cons1[ci]! = { cons[ci]! with active := false } := by
+    rw [← hcons1, cons_set_get]; simp [hci]
+  have hdata : ∀ j : Nat, SameData (cons1[j]!) (cons[j]!) ∧ (cons1[j]!).unsat = (cons[j]!).unsat := by
+    intro j
+    by_cases hj : j = ci
+    · subst hj; rw [hgetci]; exact ⟨⟨rfl, rfl, rfl, rfl⟩, rfl⟩
+    · rw [hget j hj]; exact ⟨⟨rfl, rfl, rfl, rfl⟩, rfl⟩
+  have hae : ∀ j x y, AE cons1 j x y ↔ (j ≠ ci ∧ AE cons j x y) := by
+    intro j x y
+    constructor
+    · rintro ⟨h1, h2, h3⟩
+      have hj : j ≠ ci := by
+        rintro rfl
+        rw [hgetci] at h2
+        simp at h2
+      rw [hget j hj] at h2 h3
+      exact ⟨hj, by rw [hsz] at h1; exact h1, h2, h3⟩
+    · rintro ⟨hj, h1, h2, h3⟩
+      exact ⟨by rw [hsz]; exact h1, by rw [hget j hj]; exact h2, by rw [hget j hj]; exact h3⟩
+  have hreach1 : ∀ {x y}, Reach cons1 x y → ReachAvoid cons ci x y :=
+    fun hxy => reflTransGen_adj_mono (fun j a b _ hj => ⟨((hae j a b).1 hj).1, ((hae j a b).1 hj).2⟩) hxy
+  have hreach1' : ∀ {x y}, Reach cons1 x y → Reach cons x y := fun hxy => (hreach1 hxy).toReach
+  -- an edge of the new graph never joins l and r
+  have hnolr : ∀ j, ¬ AE cons1 j l r := by
+    intro j hj
+    obtain ⟨hjc, hj'⟩ := (hae j l r).1 hj
+    exact hbridge (ReflTransGen.single ⟨j, hjc, hj'⟩)
+  have hlk : LinkOK cons1 vars :=
+    ⟨fun u j hj => by
+        obtain ⟨a, b⟩ := h.outs_sound u j hj
+        exact ⟨by rw [hsz]; exact a, by rw [(hdata j).1.1]; exact b⟩,
+     fun j hj => by rw [(hdata j).1.1]; exact h.outs_complete j (by rw [hsz] at hj; exact hj),
+     fun u j hj => by
+        obtain ⟨a, b⟩ := h.ins_sound u j hj
+        exact ⟨by rw [hsz]; exact a, by rw [(hdata j).1.2.1]; exact b⟩,
+     fun j hj => by rw [(hdata j).1.2.1]; exact h.ins_complete j (by rw [hsz] at hj; exact hj)⟩
+  -- the two passes
+  have s1 : PSpec cons1 old n vars vars1 l (some r) := by
+    have := populateSplit_spec cons1 old n hn1 fuel vars m1 l (some r) hlk hl hold hok1
+    rwa [hv1] at this
+  have hr1 : blk vars1 r = old := by
+    rcases s1.mono.blkc r with e | ⟨_, e⟩
+    · rw [e]; exact hbr
+    · exact absurd (hreach1 (s1.snd r hbr e)) hbridge
+  have hlk1 : LinkOK cons1 vars1 := hlk.of_mono s1.mono
+  have s2 : PSpec cons1 old (n + 1) vars1 vars2 r (some l) := by
+    have := populateSplit_spec cons1 old (n + 1) hn2 fuel vars1 m2 r (some l) hlk1
+      (by rw [s1.mono.size]; exact hr) hr1 hok2
+    rwa [hv2] at this
+  have hsize2 : vars2.size = vars.size := s2.mono.size.trans s1.mono.size
+  -- in-range endpoints
+  have hends : ∀ {j x y}, AE cons1 j x y → x < vars.size ∧ y < vars.size := by
+    intro j x y hj
+    obtain ⟨_, h1, _, h3⟩ := (hae j x y).1 hj
+    rcases h3 with ⟨rfl, rfl⟩ | ⟨rfl, rfl⟩
+    · exact ⟨h.l_lt j h1, h.r_lt j h1⟩
+    · exact ⟨h.r_lt j h1, h.l_lt j h1⟩
+  have hblk0 : ∀ {j x y}, AE cons1 j x y → blk vars x = blk vars y :=
+    fun hj => h.ae_blk ((hae _ _ _).1 hj).2
+  -- classification of the final block of a variable
+  have hlid1 : ∀ x, x < vars.size → blk vars1 x = n → blk vars x = old := by
+    intro x hx e
+    rcases s1.mono.blkc x with e' | ⟨e', _⟩
+    · have := h.fresh x hx
+      omega
+    · exact e'
+  -- pass 1 is closed along edges
+  have hstep1 : ∀ {j a b}, AE cons1 j a b → blk vars1 a = n → blk vars1 b = n := by
+    intro j a b hj ha
+    have ha0 := hlid1 a (hends hj).1 ha
+    rcases s1.clos a ha0 ha j b hj with ⟨rfl, hb⟩ | hb
+    · have : b = r := by simpa using hb.symm
+      subst this
+      exact absurd hj (hnolr j)
+    · rcases s1.mono.blkc b with e | ⟨_, e⟩
+      · rw [e, ← hblk0 hj, ha0] at hb
+        exact absurd rfl hb
+      · exact e
+  have hrid2 : ∀ x, x < vars.size → blk vars2 x = n + 1 → blk vars1 x = old := by
+    intro x hx e
+    rcases s2.mono.blkc x with e' | ⟨e', _⟩
+    · rcases s1.mono.blkc x with e'' | ⟨_, e''⟩
+      · have := h.fresh x hx
+        omega
+      · omega
+    · exact e'
+  have hl1 : blk vars1 l = n := s1.root
+  have hstep2 : ∀ {j a b}, AE cons1 j a b → blk vars2 a = n + 1 → blk vars2 b = n + 1 := by
+    intro j a b hj ha
+    have ha1 := hrid2 a (hends hj).1 ha
+    have hb1 : blk vars1 b = old := by
+      rcases s1.mono.blkc b with e | ⟨_, e⟩
+      · rw [e, ← hblk0 hj]
+        rcases s1.mono.blkc a with e2 | ⟨e2, _⟩
+        · rw [← e2]; exact ha1
+        · exact e2
+      · have := hstep1 hj.symm e
+        omega
+    rcases s2.clos a ha1 ha j b hj with ⟨rfl, hb⟩ | hb
+    · have : b = l := by simpa using hb.symm
+      subst this
+      omega
+    · rcases s2.mono.blkc b with e | ⟨_, e⟩
+      · rw [e] at hb
+        exact absurd hb1 hb
+      · exact e
+  -- completeness: everything reachable from l (resp. r) is moved
+  have hcomp1 : ∀ {x}, Reach cons1 l x → blk vars1 x = n := by
+    intro x hx
+    induction hx with
+    | refl => exact hl1
+    | tail _ hbc ih =>
+      obtain ⟨j, _, hj⟩ := hbc
+      exact hstep1 hj ih
+  have hcomp2 : ∀ {x}, Reach cons1 r x → blk vars2 x = n + 1 := by
+    intro x hx
+    induction hx with
+    | refl => exact s2.root
+    | tail _ hbc ih =>
+      obtain ⟨j, _, hj⟩ := hbc
+      exact hstep2 hj ih
+  -- old reachability splits along the removed edge
+  have hdecomp : ∀ {x y}, Reach cons x y →
+      Reach cons1 x y ∨ (Reach cons1 x l ∧ Reach cons1 r y) ∨ (Reach cons1 x r ∧ Reach cons1 l y) := by
+    intro x y hxy
+    refine reach_add_edge (R := Adj (fun _ => True) cons1) (R' := Adj (fun _ => True) cons)
+      (l := l) (r := r) ?_ hxy
+    intro a b ⟨j, _, hj⟩
+    by_cases hjc : j = ci
+    · subst hjc
+      obtain ⟨_, _, h3⟩ := hj
+      rw [hl0, hr0] at h3
+      rcases h3 with ⟨rfl, rfl⟩ | ⟨rfl, rfl⟩
+      · exact Or.inr (Or.inl ⟨rfl, rfl⟩)
+      · exact Or.inr (Or.inr ⟨rfl, rfl⟩)
+    · exact Or.inl ⟨j, trivial, (hae j a b).2 ⟨hjc, hj⟩⟩
+  have hnoleft : ∀ x, x < vars.size → blk vars x = old → blk vars2 x = n ∨ blk vars2 x = n + 1 := by
+    intro x hx hxo
+    have hlx : Reach cons l x := h.conn l x hl hx (hold.trans hxo.symm)
+    rcases hdecomp hlx with h1 | ⟨_, h2⟩ | ⟨h1, _⟩
+    · left
+      have := hcomp1 h1
+      rw [s2.mono.stay_eq (by rw [this]; exact hn1), this]
+    · right; exact hcomp2 h2
+    · exact absurd (hreach1 h1) hbridge
+  have hfinal : ∀ x, x < vars.size →
+      (blk vars x ≠ old ∧ blk vars2 x = blk vars x) ∨
+      (blk vars x = old ∧ (blk vars2 x = n ∨ blk vars2 x = n + 1)) := by
+    intro x hx
+    by_cases hxo : blk vars x = old
+    · exact Or.inr ⟨hxo, hnoleft x hx hxo⟩
+    · left
+      have e1 := s1.mono.stay_eq hxo
+      have e2 := s2.mono.stay_eq (by rw [e1]; exact hxo)
+      exact ⟨hxo, e2.trans e1⟩
+  have hn_back : ∀ x, blk vars2 x = n → blk vars1 x = n := by
+    intro x e
+    rcases s2.mono.blkc x with e' | ⟨_, e'⟩
+    · rw [← e']; exact e
+    · omega
+  have hoffs : ∀ x, offs vars2 x = offs vars x := fun x => (s2.mono.offs x).trans (s1.mono.offs x)
+  have hactive : ∀ j : Nat, (cons1[j]!).active = true → j ≠ ci ∧ (cons[j]!).active = true := by
+    intro j ha
+    have hj : j ≠ ci := by
+      rintro rfl
+      rw [hgetci] at ha
+      simp at ha
+    rw [hget j hj] at ha
+    exact ⟨hj, ha⟩
+  have hlkf : LinkOK cons1 vars2 := hlk1.of_mono s2.mono
+  refine
+    { outs_sound := hlkf.outs_sound, outs_complete := hlkf.outs_complete,
+      ins_sound := hlkf.ins_sound, ins_complete := hlkf.ins_complete, tight := ?_,
+      bridge := ?_, conn := ?_, fresh := ?_, cover := ?_, inact_lt := ?_, flags := ?_ }
+  · -- tight
+    intro j hj ha
+    rw [hsz] at hj
+    obtain ⟨hjc, ha0⟩ := hactive j ha
+    rw [hget j hjc]
+    obtain ⟨t1, t2⟩ := h.tight j hj ha0
+    refine ⟨?_, by rw [hoffs, hoffs]; exact t2⟩
+    have haej : AE cons1 j (cons[j]!).l (cons[j]!).r :=
+      (hae _ _ _).2 ⟨hjc, hj, ha0, Or.inl ⟨rfl, rfl⟩⟩
+    rcases hfinal _ (h.l_lt j hj) with ⟨a1, a2⟩ | ⟨a1, a2⟩
+    · have b1 : blk vars (cons[j]!).r ≠ old := by rw [← t1]; exact a1
+      rcases hfinal _ (h.r_lt j hj) with ⟨_, b2⟩ | ⟨b2, _⟩
+      · rw [a2, b2]; exact t1
+      · exact absurd b2 b1
+    · rcases a2 with a2 | a2
+      · have := hstep1 haej (hn_back _ a2)
+        rw [a2, s2.mono.stay_eq (by rw [this]; exact hn1), this]
+      · rw [a2, hstep2 haej a2]
+  · -- bridge
+    intro j hj ha hre
+    rw [hsz] at hj
+    obtain ⟨hjc, ha0⟩ := hactive j ha
+    rw [hget j hjc] at hre
+    exact h.bridge j hj ha0
+      (reflTransGen_adj_mono (fun k a b hp hk => ⟨hp, ((hae k a b).1 hk).2⟩) hre)
+  · -- conn
+    intro x y hx hy hxy
+    rw [hsize2] at hx hy
+    rcases hfinal x hx with ⟨a1, a2⟩ | ⟨a1, a2⟩
+    · rcases hfinal y hy with ⟨b1, b2⟩ | ⟨_, b2⟩
+      · have hxy0 : blk vars x = blk vars y := by rw [← a2, ← b2]; exact hxy
+        rcases hdecomp (h.conn x y hx hy hxy0) with h1 | ⟨h1, _⟩ | ⟨h1, _⟩
+        · exact h1
+        · exact absurd ((h.reach_blk (hreach1' h1)).trans hold) a1
+        · exact absurd ((h.reach_blk (hreach1' h1)).trans hbr) a1
+      · have := h.fresh x hx
+        rw [a2] at hxy
+        omega
+    · rcases hfinal y hy with ⟨_, b2⟩ | ⟨b1, b2⟩
+      · have := h.fresh y hy
+        rw [b2] at hxy
+        omega
+      · rcases a2 with a2 | a2
+        · have hy2 : blk vars2 y = n := by rw [← hxy]; exact a2
+          have rx := s1.snd x a1 (hn_back _ a2)
+          have ry := s1.snd y b1 (hn_back _ hy2)
+          exact rx.symm.trans ry
+        · have hy2 : blk vars2 y = n + 1 := by rw [← hxy]; exact a2
+          have rx := s2.snd x (hrid2 x hx a2) a2
+          have ry := s2.snd y (hrid2 y hy hy2) hy2
+          exact rx.symm.trans ry
+  · -- fresh
+    intro x hx
+    rw [hsize2] at hx
+    rcases hfinal x hx with ⟨_, a2⟩ | ⟨_, a2 | a2⟩
+    · have := h.fresh x hx
+      omega
+    · omega
+    · omega
+  · -- cover
+    intro j hj
+    rw [hsz] at hj
+    by_cases hjc : j = ci
+    · exact Or.inr (Or.inr (Array.mem_push.2 (Or.inr hjc)))
+    · rw [hget j hjc]
+      rcases h.cover j hj with c1 | c1 | c1
+      · exact Or.inl c1
+      · exact Or.inr (Or.inl c1)
+      · exact Or.inr (Or.inr (Array.mem_push.2 (Or.inl c1)))
+  · intro j hj
+    rw [hsz]
+    rcases Array.mem_push.1 hj with h1 | rfl
+    · exact h.inact_lt j h1
+    · exact hci
+  · intro hineq j hj hun
+    rw [hsz] at hj
+    rw [(hdata j).2] at hun
+    have htc := toC_set cons ci { cons[ci]! with active := false } ⟨rfl, rfl, rfl, rfl⟩
+    rw [← hcons1, htc]
+    exact h.flags (fun k hk => by
+      have := hineq k (by rw [hsz]; exact hk)
+      rw [(hdata k).1.2.2.2] at this
+      exact this) j hj hun
+
+/-! ### `St.split` -/
+
+theorem split_frame (st : St) (old ci : Nat) :
+    (st.split old ci).1.inactive = st.inactive ∧
+    ((st.split old ci).1.fuelOut = false → st.fuelOut = false) ∧
+    (st.split old ci).1.order = st.order := by
+  unfold St.split
+  simp only [St.refreshBlock]
+  refine ⟨trivial, ?_, trivial⟩
+  intro hf
+  simp only [Bool.or_eq_false_iff] at hf
+  exact hf.1.1
+
+/-- **`split` preserves the invariant** (once the split constraint is put back on the `inactive`
+    list, as all callers do), provided the two traversals did not run out of fuel -/
+theorem split_inv (st : St) (ci : Nat) (h : Inv st) (hci : ci < st.cons.size)
+    (hact : (st.cons[ci]!).active = true)
+    (hfo : (st.split (blk st.vars (st.cons[ci]!).l) ci).1.fuelOut = false) :
+    InvC (st.split (blk st.vars (st.cons[ci]!).l) ci).1.vars
+      (st.split (blk st.vars (st.cons[ci]!).l) ci).1.cons
+      (st.split (blk st.vars (st.cons[ci]!).l) ci).1.blocks.size
+      (st.inactive.push ci) := by
+  unfold St.split at hfo ⊢
+  simp only [St.refreshBlock] at hfo ⊢
+  simp only [Bool.or_eq_false_iff, Bool.not_eq_false'] at hfo
+  obtain ⟨⟨_, hok1⟩, hok2⟩ := hfo
+  have := split_core st.vars st.cons st.blocks.size st.inactive h ci hci hact (st.vars.size + 1) #[] #[]
+    hok1 hok2
+  simpa using this
 
 end AdaptaVerif.Lemmas.VpscSplit
